@@ -2,7 +2,7 @@
 from common import TB_COMMON
 
 PROP = {
-    'lean_modules': ['CapyV.Props.C22'],
+    'lean_modules': ['CapyV.Props.C22', 'CapyV.Props.C22Doc'],
     'level': 'proof',
     "trusted_base": TB_COMMON + [   "logos' matching engine is replaced by a declarative maximal-munch model (longest match over the rule "
     "table, logos' priority formula on ties, one scalar value of Error when no rule matches); its agreement "
